@@ -18,7 +18,7 @@ func init() {
 		Explanation: "(R1) the one-shot tokens of a request (upstreamResponseReceived, downstreamCleaned, downstreamReset, upstreamReset, reuseBuffer, BaseStream.state) are accessed only through sync/atomic (the constructor's pre-publication store is the listed exception); " +
 			"(R2) each terminal producer — the two timeout handlers, the store of the upstream response in upstreamRequest.OnReceive, the hijack in TerminateStream — is reachable only through the success edge of CompareAndSwap(&upstreamResponseReceived,0,1); cleanStream's body, both OnResetStream and BaseStream.DestroyStream's listener loop are behind their own CAS; the only way back to 0 is the CAS(1,0) in setupRetry; " +
 			"(R3) timer callbacks follow the order reuse-off -> cleaned check -> generation check -> CAS -> handler; (R4) the reply has one author: responseSender.Append* is called only from downStream.append*, those only from onUpstream*/the receive-filter handler, those only from upstreamRequest.receive*, which only the UpRecv* cases of the phase machine call; " +
-			"(R5) timers are armed on every end-of-request path and on retry, the global timeout always ends up non-zero, cleanUp stops and clears both timers and runs in cleanStream before the stream is recycled; (R6) every phase that acts re-checks through processError. (R7) the wake-up token of the phase machine: downStream.notify is touched only by sendNotify/cleanNotify/waitNotify, is a one-slot channel, send and clean never block, and every re-entry of receive in OnReceive is preceded in the same iteration by cleanNotify. (R8) processError clears upstreamRequest.setupRetry on the edge that returns the Retry phase, and only downStream.setupRetry raises it.",
+			"(R5) timers are armed on every end-of-request path and on retry, the global timeout always ends up non-zero, cleanUp stops and clears both timers and runs in cleanStream before the stream is recycled; (R6) every phase that acts re-checks through processError. (R7) the wake-up token of the phase machine: downStream.notify is touched only by sendNotify/cleanNotify/waitNotify, is a one-slot channel, send and clean never block, and every re-entry of receive in OnReceive is preceded in the same iteration by cleanNotify. (R8) processError clears upstreamRequest.setupRetry on the edge that returns the Retry phase, and only downStream.setupRetry raises it. (R2 winner-produces) from the success edge of every CompareAndSwap(upstreamResponseReceived,0,1) no return is reachable that avoids every producer of the outcome, unless the verdict is handed to the caller.",
 		Run: runC03,
 	})
 }
